@@ -76,6 +76,27 @@ Proof.
   apply (f_equal (@length Z)) in H. rewrite firstn_length in H. cbn [length] in H. lia.
 Qed.
 
+(* "no record and no error" happens exactly when two bytes arrived and they are not 05 00; in every
+   other case in which nothing is reported Scan returns an error (or, with dial timeout 0 only, hangs) *)
+Theorem C09_nothing_iff : forall t_dial t_data ip port s,
+  let D := delivered (Z.max 0 t_data) (s_reads s) in
+  r_out (scan socks_proto t_dial t_data None ip port s) = Nothing <->
+  dial_connects t_dial (s_dial s) /\ s_linger s = true /\ write_succeeds t_data (s_write s) /\
+  (2 <= length D)%nat /\ firstn 2 D <> [5; 0].
+Proof.
+  intros. subst D. pose proof (scan_nothing_iff socks_proto t_dial t_data ip port s) as H. cbv zeta in H.
+  rewrite H. change (p_reply_len socks_proto) with 2%nat.
+  set (D := delivered (Z.max 0 t_data) (s_reads s)).
+  pose proof (accepts_first_two socks_proto D eq_refl) as A.
+  change (p_accept_ver socks_proto) with 5 in A. change (p_accept_method socks_proto) with 0 in A.
+  change (p_reply_len socks_proto) with 2%nat in A.
+  destruct (accepts socks_proto (firstn 2 D)) eqn:E.
+  - split; [intros [_ [_ [_ [_ X]]]]; discriminate|].
+    intros [_ [_ [_ [HL X]]]]. exfalso. apply X. apply A. auto.
+  - split; intros [H1 [H2 [H3 [H4 _]]]]; repeat split; auto.
+    intros X. apply A in X. destruct X as [_ X]. congruence.
+Qed.
+
 (* TIME.  For every script and every cancellation time, if the dial timeout is not 0 (0 means "no
    timeout" to net.Dialer), Scan returns, and it returns within the dial timeout plus three data
    timeouts: one write and at most two reads.  Negative timeouts count as 0. *)
@@ -195,6 +216,7 @@ Print Assumptions C09_iff.
 Print Assumptions C09_record.
 Print Assumptions C09_all_replies.
 Print Assumptions C09_short_reply.
+Print Assumptions C09_nothing_iff.
 Print Assumptions C09_time.
 Print Assumptions C09_total.
 Print Assumptions C09_cancel_prompt.
